@@ -504,7 +504,7 @@ size_t SCPI_NumberToStr(scpi_t * context, const scpi_choice_def_t * special, scp
         if (unit) {
             strncat(str, " ", len - result);
             if (result + 2 < len) {
-                strncat(str, unit, len - result - 1);
+                strncat(str, unit, len - result - 2);
             }
             result = strlen(str);
         }
